@@ -172,3 +172,125 @@ func VerifHarness_C11_O2() {
 	}
 	verifReach("end")
 }
+
+// C11/O5 — restart across a validator-set change.  Three real cores gossip,
+// node 0 on a Badger-backed store; a join request of a fourth peer goes through
+// consensus.  Node 0 is shut down cleanly at a chosen moment (before / after
+// the change became effective) and restarted the way a deployment does: a new
+// core on the reopened database, configured with the ORIGINAL peer list
+// (peers.json predates the join), bootstrap, setHeadAndSeq, reset application.
+// The restarted node has the validator set, the gossip peer list, the
+// validator-set history, the blocks and the head the stopped node had, and
+// goes on gossiping in agreement with the others.
+func VerifHarness_C11_O5() {
+	dir := verifTempDir("c11o5")
+	bst, err := hg.NewBadgerStore(1000, dir, false, nil)
+	if err != nil {
+		panic(err)
+	}
+	s := verifNewSysOn(3, func(i int) hg.Store {
+		if i == 0 {
+			return bst
+		}
+		return hg.NewInmemStore(1000)
+	})
+	jp := verifPeer(3)
+	itx := hg.NewInternalTransactionJoin(*jp)
+	ih, _ := itx.Body.Hash()
+	itx.Signature = verifSignature(verifKey(3), ih, true)
+	steps := []int{45, 96}[verifChoice("shutdownAfterExchange", 2)]
+	for st := 0; st < steps; st++ {
+		to := st % 3
+		from := (to + 1 + (st/3)%2) % 3
+		if st == 4 {
+			s.nodes[1].c.addInternalTransaction(itx)
+		}
+		if err := s.pull(from, to, -1); err != nil {
+			panic(fmt.Sprintf("step %d: %v", st, err))
+		}
+	}
+	old := s.nodes[0]
+	committed := false
+	for _, b := range old.blocks {
+		if len(b.InternalTransactions()) > 0 {
+			committed = true
+		}
+	}
+	if !committed {
+		verifAssume(false) // the request was not yet committed on node 0 for this shape
+	}
+	oldSets, _ := bst.GetAllPeerSets()
+	if err := bst.Close(); err != nil {
+		panic(err)
+	}
+	bst2, err := hg.NewBadgerStore(1000, dir, false, nil)
+	verifAssert("reopen-succeeds", err == nil)
+	if err != nil {
+		return
+	}
+	re := &verifSysNode{}
+	cb := func(b hg.Block) (proxy.CommitResponse, error) {
+		re.blocks = append(re.blocks, b)
+		receipts := []hg.InternalTransactionReceipt{}
+		for _, it := range b.InternalTransactions() {
+			receipts = append(receipts, it.AsAccepted())
+		}
+		return proxy.CommitResponse{StateHash: []byte{byte(len(re.blocks))}, InternalTransactionReceipts: receipts}, nil
+	}
+	genesis := peers.NewPeerSet(s.peers[:3])
+	re.c = newCore(NewValidator(verifKey(0), "node0"), genesis, genesis, bst2, cb, false, verifLogger())
+	berr := re.c.bootstrap()
+	verifAssert("bootstrap-succeeds", berr == nil)
+	if berr != nil {
+		return
+	}
+	herr := re.c.setHeadAndSeq()
+	verifAssert("head-restored", herr == nil && re.c.head == old.c.head && re.c.seq == old.c.seq)
+	samePeers := func(a, b *peers.PeerSet) bool {
+		if a == nil || b == nil || len(a.Peers) != len(b.Peers) {
+			return false
+		}
+		for i := range a.Peers {
+			if a.Peers[i].PubKeyHex != b.Peers[i].PubKeyHex {
+				return false
+			}
+		}
+		return true
+	}
+	verifAssert("validator-set-restored", samePeers(re.c.validators, old.c.validators))
+	verifAssert("gossip-peer-list-restored", samePeers(re.c.peers, old.c.peers))
+	verifAssert("membership-rounds-restored", re.c.acceptedRound == old.c.acceptedRound && re.c.removedRound == old.c.removedRound)
+	newSets, _ := bst2.GetAllPeerSets()
+	sameHist := len(newSets) == len(oldSets)
+	for r, ps := range oldSets {
+		if got, ok := newSets[r]; !ok || len(got) != len(ps) {
+			sameHist = false
+		}
+	}
+	verifAssert("validator-set-history-restored", sameHist)
+	verifAssert("blocks-re-delivered", len(re.blocks) == len(old.blocks))
+	for i := range old.blocks {
+		if i < len(re.blocks) {
+			x, y := re.blocks[i], old.blocks[i]
+			verifAssert("re-delivered-block-identical", x.Index() == y.Index() && x.RoundReceived() == y.RoundReceived() && string(x.FrameHash()) == string(y.FrameHash()) && string(x.PeersHash()) == string(y.PeersHash()) && len(x.InternalTransactions()) == len(y.InternalTransactions()))
+		}
+	}
+	if len(old.c.validators.Peers) == 4 {
+		verifReach("restart-after-the-join-was-processed")
+	}
+	s.nodes[0] = re
+	for st := steps; st < steps+36; st++ {
+		to := st % 3
+		from := (to + 1 + (st/3)%2) % 3
+		if err := s.pull(from, to, -1); err != nil {
+			verifAssert("gossip-resumes-after-restart", false)
+			return
+		}
+	}
+	s.checkInvariants(0)
+	if len(re.blocks) > len(old.blocks) {
+		verifReach("restarted-node-delivers-further-blocks")
+	}
+	bst2.Close()
+	verifReach("end")
+}
